@@ -844,6 +844,32 @@ Lemma http_boundary : forall a,
 Proof. intro a. repeat split. Qed.
 
 (* ------------------------------------------------------------------ *)
+(* 5b. the direct resolver inside ValidateCredentialStatus              *)
+(* ------------------------------------------------------------------ *)
+
+(* with IssuerResolver registered for the credential's status type: success <-> a 2xx
+   response shorter than the limit that decodes to an answer passing the three checks *)
+Theorem direct_ok : forall (poseidon : list Z -> Z) (q : Z), 0 < q <= 2 ^ 256 ->
+  forall (reg : registry) (cs : cred_status) (h : http_result) (a : answer),
+  0 <= cs_nonce cs < q ->
+  lookup_resolver reg (cs_type cs) = Some (http_resolver h) ->
+  (validate_status poseidon q reg cs = Ok a <->
+   (exists code len, h = HResp code len true (Some a) true /\
+                     200 <= code < 300 /\ len < limit_reader_bytes) /\
+   status_verified poseidon q a (cs_nonce cs) /\ r_ex (a_mtp a) = false).
+Proof.
+  intros poseidon q Hq reg cs h a Hn Hl.
+  rewrite (decision_ok poseidon q Hq reg cs a Hn).
+  assert (Hres : resolved reg cs a <-> http_resolve h = Ok a).
+  { unfold resolved. split.
+    - intros (r & Hl' & Hr). rewrite Hl in Hl'. inversion Hl'; subst r.
+      unfold http_resolver in Hr. destruct (http_resolve h) as [a'| | |]; congruence.
+    - intro Hh. exists (http_resolver h). split; [exact Hl|].
+      unfold http_resolver. rewrite Hh. reflexivity. }
+  rewrite Hres, http_answer_iff. tauto.
+Qed.
+
+(* ------------------------------------------------------------------ *)
 (* 7b. NewHashFromHex: what a decoded member can be                     *)
 (* ------------------------------------------------------------------ *)
 
